@@ -176,12 +176,12 @@ def build_text(case):
     return text, info
 
 
-def _req(rest, ctx, url, text):
+def _req(rest, ctx, url, text, method='POST'):
     old = signal.signal(signal.SIGALRM, _alarm)
     signal.alarm(HANG_S)
     t0 = time.time()
     try:
-        st, body = rest.request(ctx, 'POST', url, text=text)
+        st, body = rest.request(ctx, method, url, text=text)
         return st, body, None, time.time() - t0
     except _Hang:
         return None, None, 'hang', time.time() - t0
@@ -250,6 +250,36 @@ def check_text(kind, text, info=None, stats=None, case=None):
                              ctx)
         except sim.HarnessError:
             raise
+    # ---- the update path (PUT of the same text): total as well, and for
+    # an accepted definition an update with identical text must leave the
+    # stored form (definition text and spec) as it was
+    if not viol:
+        tables = ('workflow_definitions_v2', 'action_definitions_v2',
+                  'workbooks_v2')
+        before = {t: sorted(map(str, _rows(sim, t))) for t in tables} \
+            if accepted else None
+        st, body, err, dt = _req(rest, ctx, '/v2/%s' % plural, text, 'PUT')
+        checks.append('update_path')
+        if err == 'hang':
+            viol.append({'kind': 'validation-hangs',
+                         'detail': {'endpoint': 'PUT', 'seconds': HANG_S}})
+        elif err is not None or st >= 500 or st < 200 or 300 <= st < 400:
+            viol.append({'kind': 'internal-error-on-submission',
+                         'detail': {'endpoint': 'PUT /v2/%s' % plural,
+                                    'raised': err, 'status': st,
+                                    'fault': _fault(body)}})
+        elif accepted:
+            after = {t: sorted(map(str, _rows(sim, t))) for t in tables}
+            if st != 200:
+                viol.append({'kind': 'update-with-identical-text-refused',
+                             'detail': {'status': st,
+                                        'fault': _fault(body)}})
+            elif after != before:
+                viol.append({'kind': 'update-with-identical-text-changed-'
+                             'stored-form', 'detail': {
+                                 t: [x[:200] for x in sorted(
+                                     set(after[t]) ^ set(before[t]))[:2]]
+                                 for t in tables if after[t] != before[t]}})
     if stats is not None:
         mutated = bool(info and (any(not o.startswith(('skipped', 'noop'))
                                      for o in info['ops'])
